@@ -125,11 +125,34 @@ def e_Yield(self, n, st):
         v = self.binop(n.value.op, a, b, n.value)
     else:
         v = self.eval(n.value, st) if n.value is not None else Const(None)
+    if isinstance(v, Num) and v.fsf is not None:
+        self.events.append(('axis-value', v.fsf, self.cur.qname if self.cur else ''))
     if fr.yields is None:
         fr.yields = []
         fr.ycounts = {}
     fr.yields.append(v.with_taint(self.pc) if self.pc else v)
     cnt = Aff(1)
+    for ln in fr.loopn:
+        cnt = cnt.mul(ln) if (cnt is not None and ln is not None) else None
+    fr.ycounts[id(n)] = cnt
+    return Const(None)
+
+
+def e_YieldFrom(self, n, st):
+    """`yield from <generator expression / comprehension / sequence>`: every element is yielded"""
+    fr = self.frames[-1]
+    if isinstance(n.value, (ast.GeneratorExp, ast.ListComp)):
+        v, count = self.comprehension(n.value, st, n.value.elt)
+    else:
+        seq = self.eval(n.value, st)
+        v, count = self.iter_elem(seq, n.value, None)
+    if isinstance(v, Num) and v.fsf is not None:
+        self.events.append(('axis-value', v.fsf, self.cur.qname if self.cur else ''))
+    if fr.yields is None:
+        fr.yields = []
+        fr.ycounts = {}
+    fr.yields.append(v.with_taint(self.pc) if self.pc else v)
+    cnt = count
     for ln in fr.loopn:
         cnt = cnt.mul(ln) if (cnt is not None and ln is not None) else None
     fr.ycounts[id(n)] = cnt
@@ -220,6 +243,7 @@ def unary_value(self, op, v, n):
     if nv is not None:
         r = nv.copy()
         r.intdt = nv.intdt
+        r.fsf = nv.fsf if not isinstance(n.op, ast.USub) else (-nv.fsf if nv.fsf is not None else None)
         if isinstance(n.op, ast.USub):
             r.nonneg = False
             r.ex = (-nv.ex) if nv.ex is not None else None
@@ -497,7 +521,32 @@ def _sym(x):
 def binop(self, op, va, vb, node):
     r_ = _binop(self, op, va, vb, node)
     _int_dtype(self, op, va, vb, r_, node)
+    _fs_fraction(op, va, vb, r_)
     return r_
+
+
+def _fs_fraction(op, va, vb, r):
+    """frequency values as exact multiples of the sampling rate: (index * df), (-sampling/2 + a*df), ..."""
+    if not isinstance(r, Num) or r.shape != ():
+        return
+    fa = va.fsf if isinstance(va, Num) else None
+    fb = vb.fsf if isinstance(vb, Num) else None
+    if fa is None and fb is None:
+        return
+    try:
+        if isinstance(op, (ast.Add, ast.Sub)):
+            if fa is not None and fb is not None:
+                r.fsf = sp.cancel(fa - fb if isinstance(op, ast.Sub) else fa + fb)
+        elif isinstance(op, ast.Mult):
+            if fa is not None and fb is None and sym_of(vb) is not None:
+                r.fsf = sp.cancel(fa * sym_of(vb))
+            elif fb is not None and fa is None and sym_of(va) is not None:
+                r.fsf = sp.cancel(fb * sym_of(va))
+        elif isinstance(op, ast.Div):
+            if fa is not None and fb is None and sym_of(vb) is not None:
+                r.fsf = sp.cancel(fa / sym_of(vb))
+    except Exception:
+        r.fsf = None
 
 
 def _int_dtype(self, op, va, vb, r, node):
@@ -1411,7 +1460,28 @@ def index_value(self, v, idx, node):
         r = nv.copy(shape=tuple(out), taint=t)
         r.ex = None
         r.intdt = nv.intdt
+        if nv.role in ('singular', 'svd-Vh'):
+            # which singular value / singular vector is read (rules about the noise subspace)
+            self.events.append(('svd-read', nv.role, [(_asint(ix).a if (not isinstance(ix, SliceV) and _asint(ix) is not None) else None)
+                                                      for ix in idxs], bool(nv.tr), self.cur.qname if self.cur else ''))
         r.col0, r.src_uid = None, None
+        if len(shape) == 1 and len(idxs) == 1 and isinstance(idxs[0], Num) and idxs[0].idxseg is not None and isinstance(v, Num) \
+                and v.seg is not None and shape[0] is not None:
+            # x[order] with order a concatenation of aranges: the pieces are slices of x
+            from . import segmap
+            parts_ = []
+            for (pn, p0, pst) in idxs[0].idxseg:
+                p0a = segmap.norm_index(p0, shape[0])
+                p0a = p0a if p0a is not None else p0
+                if pst == 1:
+                    piece = segmap.take(v.seg, p0a, p0a + pn)
+                else:
+                    piece = segmap.take(v.seg, p0a - pn + 1, p0a + 1)
+                    piece = segmap.reverse(piece) if piece is not None else None
+                parts_.append(piece)
+            if all(p_ is not None for p_ in parts_):
+                r.seg = segmap.concat(parts_)
+                r.shape = (segmap.length(r.seg),)
         if len(shape) == 1 and len(idxs) == 1 and isinstance(idxs[0], Num) and idxs[0].grid is not None and idxs[0].shape is not None \
                 and len(idxs[0].shape) == 2 and isinstance(v, Num) and v.seg is not None:
             # x[grid]: entry (i, k) of the result is x[ai*i + ak*k + c]
@@ -1488,6 +1558,13 @@ def index_value(self, v, idx, node):
             elif len(idxs) == 2 and full_r and isinstance(idxs[1], SliceV) and idxs[1].lo is None and idxs[1].hi is None \
                     and cd is not None and cd[2] == -1 and shape[1] is not None:
                 r.amap = amap_fliplr(nv.amap, shape[1])
+        if nv.grid is not None and len(shape) == 1 and len(idxs) == 2 and r.shape is not None and len(r.shape) == 2:
+            full = lambda ix: isinstance(ix, SliceV) and ix.lo is None and ix.hi is None and ix.step is None
+            none = lambda ix: isinstance(ix, Const) and ix.v is None
+            if full(idxs[0]) and none(idxs[1]):
+                r.grid = (nv.grid[0], F(0), nv.grid[2])          # column: a[:, newaxis]
+            elif none(idxs[0]) and full(idxs[1]):
+                r.grid = (F(0), nv.grid[0], nv.grid[2])          # row: a[newaxis, :]
         if fancy is None and r.is_array:
             r.view_of = nv.view_of          # basic slicing returns a view
             self.share(r, v, whole=False)
